@@ -137,7 +137,7 @@ impl G<'_> {
 }
 
 #[derive(Clone, PartialEq)]
-enum Tok {
+pub enum Tok {
     Open,
     Close,
     Word(String, u8), // text, class: 0 literal, 1 bare var, 2 braced var, 3 symbolic op, 4 alphabetic op/const
@@ -201,7 +201,7 @@ fn render(rng: &mut StdRng, t: &Tr, tab: &[OpDesc], p_redundant: f64, out: &mut 
     }
 }
 
-fn to_text(rng: &mut StdRng, toks: &[Tok], p_space: f64) -> String {
+pub fn to_text(rng: &mut StdRng, toks: &[Tok], p_space: f64) -> String {
     let mut s = String::new();
     for (i, t) in toks.iter().enumerate() {
         if i > 0 {
@@ -232,7 +232,7 @@ pub fn gen_case(rng: &mut StdRng, n_operands: usize, n_vars: usize, shape: u8, p
     (tab, text)
 }
 
-fn gen_toks(rng: &mut StdRng, tab: &[OpDesc], n_operands: usize, n_vars: usize, shape: u8, p_un: f64, p_red: f64, plain_lits: bool) -> (Vec<Tok>, ()) {
+pub fn gen_toks(rng: &mut StdRng, tab: &[OpDesc], n_operands: usize, n_vars: usize, shape: u8, p_un: f64, p_red: f64, plain_lits: bool) -> (Vec<Tok>, ()) {
     let tab = tab.to_vec();
     let bins: Vec<usize> = tab.iter().enumerate().filter(|(_, o)| o.bin).map(|(i, _)| i).collect();
     let uns: Vec<usize> = tab.iter().enumerate().filter(|(_, o)| o.un).map(|(i, _)| i).collect();
